@@ -1,5 +1,5 @@
-(* C06, finding D30: the object table the library's pipeline gives to an Operator holds the problem's objects
-   only, so quantifiers never range over the domain's constants. *)
+(* C06, the objects a quantifier ranges over (D30, repaired in /repo): Operator.quantification_objects holds the
+   domain's constants and the problem's objects, so quantified conditions and effects range over constants too. *)
 From Coq Require Import List String Bool Arith PrimFloat.
 From Verif Require Import Base.Result Base.Str Base.Sexp Base.PyDict Model.Types Model.Domain Model.Exec
   Model.TypeSites Spec.Pddl.
@@ -7,13 +7,73 @@ Import ListNotations.
 Open Scope string_scope.
 Open Scope list_scope.
 
-(* every problem object is in the table, with its type (the fragment on which the statement holds) *)
+(* ---------- dict facts: a lookup in {**d, **kvs} ---------- *)
+Lemma dget_app_c06 {V} (a b : pydict V) k :
+  dget (a ++ b) k = match dget a k with Some v => Some v | None => dget b k end.
+Proof.
+  induction a as [|[k' v'] r IH]; simpl; [reflexivity|].
+  destruct (String.eqb k k'); [reflexivity|exact IH].
+Qed.
+
+Lemma dget_dupdate_c06 {V} (kvs : list (string * V)) : forall (d : pydict V) k,
+  dget (dupdate d kvs) k = match dget (rev kvs) k with Some v => Some v | None => dget d k end.
+Proof.
+  unfold dupdate. induction kvs as [|[k' v'] r IH]; intros d k; simpl; [reflexivity|].
+  rewrite IH, dget_app_c06. destruct (dget (rev r) k) as [v|]; [reflexivity|]. simpl.
+  destruct (String.eqb k k') eqn:E.
+  - apply String.eqb_eq in E. subst k'. apply dget_dset_same.
+  - apply dget_dset_other. intro H. subst k'. rewrite String.eqb_refl in E. discriminate.
+Qed.
+
+Lemma dget_rev_none_c06 {V} (kvs : list (string * V)) k : dget kvs k = None -> dget (rev kvs) k = None.
+Proof.
+  induction kvs as [|[k' v'] r IH]; simpl; [reflexivity|].
+  destruct (String.eqb k k') eqn:E; [discriminate|]. intros H. rewrite dget_app_c06, (IH H). simpl. rewrite E. reflexivity.
+Qed.
+
+Lemma dget_rev_nodup_c06 {V} (kvs : list (string * V)) k v :
+  NoDup (map fst kvs) -> dget kvs k = Some v -> dget (rev kvs) k = Some v.
+Proof.
+  induction kvs as [|[k' v'] r IH]; simpl; [discriminate|]. intros Hnd H. inversion Hnd as [|x l Hnin Hnd']; subst.
+  rewrite dget_app_c06. destruct (String.eqb k k') eqn:E.
+  - apply String.eqb_eq in E. subst k'. inversion H; subst v'.
+    assert (Hn : dget r k = None).
+    { clear -Hnin. induction r as [|[k2 v2] r IH]; simpl; [reflexivity|].
+      destruct (String.eqb k k2) eqn:E2; [apply String.eqb_eq in E2; subst k2; exfalso; apply Hnin; left; reflexivity|].
+      apply IH. intro Hin. apply Hnin. right. exact Hin. }
+    rewrite (dget_rev_none_c06 _ _ Hn). simpl. rewrite String.eqb_refl. reflexivity.
+  - rewrite (IH Hnd' H). reflexivity.
+Qed.
+
+(* exact content of the table: an object of the problem (the last entry of that name), else the constant *)
+Lemma pipeline_objects_exact_lemma (dom : mdomain) (objs : pydict string) n :
+  dget (pipeline_objects dom objs) n =
+  match dget (rev objs) n with Some t => Some t | None => dget (d_consts dom) n end.
+Proof. unfold pipeline_objects. apply dget_dupdate_c06. Qed.
+
+(* every problem object is in the table, with its type *)
 Lemma pipeline_objects_partial_lemma (dom : mdomain) (objs : pydict string) o t :
-  dget objs o = Some t -> dget (pipeline_objects dom objs) o = Some t.
-Proof. intros H. exact H. Qed.
+  NoDup (map fst objs) -> dget objs o = Some t -> dget (pipeline_objects dom objs) o = Some t.
+Proof. intros Hnd H. rewrite pipeline_objects_exact_lemma, (dget_rev_nodup_c06 _ _ _ Hnd H). reflexivity. Qed.
+
+(* every constant that no object shadows is in the table, with its type *)
+Lemma pipeline_objects_constants_lemma (dom : mdomain) (objs : pydict string) k t :
+  dget objs k = None -> dget (d_consts dom) k = Some t -> dget (pipeline_objects dom objs) k = Some t.
+Proof. intros Hn H. rewrite pipeline_objects_exact_lemma, (dget_rev_none_c06 _ _ Hn). exact H. Qed.
+
+(* nothing else is in the table *)
+Lemma pipeline_objects_only_lemma (dom : mdomain) (objs : pydict string) n t :
+  dget (pipeline_objects dom objs) n = Some t -> (exists t', dget objs n = Some t') \/ dget (d_consts dom) n = Some t.
+Proof.
+  rewrite pipeline_objects_exact_lemma. destruct (dget (rev objs) n) as [t'|] eqn:E; intros H.
+  - left. destruct (dget objs n) as [t2|] eqn:E2; [exists t2; reflexivity|].
+    rewrite (dget_rev_none_c06 _ _ E2) in E. discriminate.
+  - right. exact H.
+Qed.
 
 (* witness: (:types t) (:constants k - t) (:predicates (m ?x)), objects o - t, state {(m o)}:
-   (forall (?v - t) (and (m ?v))) is FALSE in PDDL (m k is missing) but the pipeline's evaluation says true *)
+   (forall (?v - t) (and (m ?v))) is FALSE in PDDL (m k is missing); the table of the pinned code (objects only)
+   made the evaluation say true, the table of the repaired code makes it say false *)
 Definition w_dom : mdomain :=
   {| d_name := "d"; d_reqs := []; d_types := [("t", "object")]; d_consts := [("k", "t")];
      d_preds := [("m", [("?x", "object")])]; d_funcs := []; d_actions := [] |}.
@@ -22,13 +82,21 @@ Definition w_state : state := {| facts := [("m", ["o"])]; fluents := [] |}.
 Definition w_cond : mcond := MUniv "?v" "t" (MPre "and" [MLit true "m" ["?v"]] [] []).
 Definition w_form : form := FForall "?v" "t" (FAnd [FAtom "m" ["?v"]]).
 
-Lemma constants_refuted_lemma :
+Lemma constants_before_D30_refuted_lemma :
   exists (dom : mdomain) (objs : objects) (s : state) (c : mcond) (f : form),
     denote_cond c = Some f /\
     (exists k kt, dget (d_consts dom) k = Some kt /\ is_sub_type (d_types dom) kt "t" = true) /\
-    eval_lifted_cond dom 0%float (Some (pipeline_objects dom objs)) s [] c = Ok true /\
+    eval_lifted_cond dom 0%float (Some (pipeline_objects_before_D30 dom objs)) s [] c = Ok true /\
     holds 0%float (d_types dom) (d_consts dom ++ objs) [] s f = false.
 Proof.
   exists w_dom, w_objs, w_state, w_cond, w_form.
   split; [reflexivity|]. split; [exists "k", "t"; split; reflexivity|]. split; vm_compute; reflexivity.
 Qed.
+
+Lemma constants_example_lemma :
+  denote_cond w_cond = Some w_form /\
+  eval_lifted_cond w_dom 0%float (Some (pipeline_objects w_dom w_objs)) w_state [] w_cond = Ok false /\
+  holds 0%float (d_types w_dom) (pipeline_objects w_dom w_objs) [] w_state w_form = false /\
+  eval_lifted_cond w_dom 0%float (Some (pipeline_objects w_dom w_objs))
+     {| facts := [("m", ["o"]); ("m", ["k"])]; fluents := [] |} [] w_cond = Ok true.
+Proof. repeat split; vm_compute; reflexivity. Qed.
